@@ -123,7 +123,8 @@ def judge(case, wire, closed, escaped, worker_exc):
     for ln in lines:
         if b"\r" in ln or b"\n" in ln:
             v.append(("bare-cr-lf-in-head", f"line {ln!r} contains CR or LF"))
-    is500 = lines[0] == b"HTTP/1.1 500 Internal Server Error"
+    V = b"HTTP/1.0 " if case.get("http10") else b"HTTP/1.1 "
+    is500 = lines[0] == V + b"500 Internal Server Error"
     path = case["path"]
     refuse = must_refuse(case)
     if is500:
@@ -143,11 +144,11 @@ def judge(case, wire, closed, escaped, worker_exc):
         for ln in lines:
             if b"\r" in ln or b"\n" in ln:
                 break
-        allowed_status = [b"HTTP/1.1 200 OK", b"HTTP/1.1 500 Internal Server Error"]
+        allowed_status = [V + b"200 OK", V + b"500 Internal Server Error"]
         st = case["status"]
         if isinstance(st, str) and "\r" not in st and "\n" not in st:
             try:
-                allowed_status.append(b"HTTP/1.1 " + st.encode("latin-1"))  # accepted before a later argument was refused
+                allowed_status.append(V + st.encode("latin-1"))  # accepted before a later argument was refused
             except UnicodeEncodeError:
                 pass
         if lines[0] not in allowed_status:
@@ -170,7 +171,7 @@ def judge(case, wire, closed, escaped, worker_exc):
         v.append(("error-path-not-500", f"application failed before output but the head is {lines[0]!r}"))
         return v, "accepted"
     try:
-        want0 = b"HTTP/1.1 " + lat(case["status"])
+        want0 = V + lat(case["status"])
     except (UnicodeEncodeError, AttributeError):
         v.append(("unencodable-status-emitted", f"head={head!r}"))
         return v, "accepted"
@@ -221,7 +222,10 @@ def run_case(case):
     del env.escaped[:]
     del env.disp.worker_exc[:]
     c = env.connect()
-    c.send(b"GET / HTTP/1.1\r\nHost: h\r\n\r\n")
+    if case.get("http10"):
+        c.send(b"GET / HTTP/1.0\r\nHost: h\r\nConnection: keep-alive\r\n\r\n")
+    else:
+        c.send(b"GET / HTTP/1.1\r\nHost: h\r\n\r\n")
     wire, closed = c.wire, c.closed
     esc, wex = list(env.escaped), list(env.disp.worker_exc)
     if not c.closed and c.ch is not None:
@@ -237,6 +241,12 @@ def strings(n):
 
 def cases(tier):
     n = 4 if tier == "quick" else 5
+    # HTTP/1.0 keep-alive requests take a different branch of the header builder
+    for s in strings(3):
+        for path in ("first", "write", "error", "swallow"):
+            yield dict(status="200 OK" + s, name="X-H", value="v", path=path, place="status", http10=True)
+            yield dict(status="200 OK", name="X" + s, value="v", path=path, place="name", http10=True)
+            yield dict(status="200 OK", name="X-H", value="v" + s + "w", path=path, place="value-inner", http10=True)
     for s in strings(n):
         for path in PATHS:
             yield dict(status="200 OK" + s, name="X-H", value="v", path=path, place="status")
@@ -269,7 +279,7 @@ def _batch(items):
     classes = set()
     for case in items:
         v, outcome = run_case(case)
-        classes.add((case["place"], case["path"], outcome, must_refuse(case)))
+        classes.add((case["place"], case["path"], outcome, must_refuse(case), bool(case.get("http10"))))
         for key, what in v:
             out.append((key, what, case))
     return len(items), classes, out
